@@ -19,7 +19,8 @@ func init() {
 		"(2) POLICYEXH: every selection policy constant has a case in _select and policyNeedsAliveState, defaults are errors, the fixed index is range-checked before use; (3) EXCLUDED: the excluded node is threaded to every getter and compared before any candidate is chosen; " +
 		"(4) COMUT: every write of the alive-entry list happens under the set's mutex together with the index map write for the added/moved/removed node; (5) ALIVEONLY: the getters only return nodes read from the alive-entry list or the current best. " +
 		"(6) TOLERANCE: the latency-update step of NotifyLatencyChange and the take-over test of the rescan, folded over every ordering cell of (new latency, current latency, tolerance) x alive x is-current-choice, take over / rescan / clear as the statement requires and agree with each other. " +
-		"Not decided: latency arithmetic (averages, offsets), the scan loop's minimum, behaviour over histories beyond one update step. The group-level 'no best node => latency reset' invariant is decided under C16/GROUPBIT."})
+		"(7) OFFSET: wherever a raw latency snapshot becomes a sorting latency the offset of the same node is added; the control plane's dial path passes its excluded node to every selection call. " +
+		"Not decided: latency arithmetic (averages), the scan loop's minimum, behaviour over histories beyond one update step. The group-level 'no best node => latency reset' invariant is decided under C16/GROUPBIT."})
 }
 
 func runC15(c *Ctx) {
@@ -28,6 +29,8 @@ func runC15(c *Ctx) {
 	c15Excluded(c)
 	c15Comut(c)
 	c15Tolerance(c)
+	c15Offset(c)
+	c15ExcludedDial(c)
 }
 
 func c15Chain(c *Ctx) {
